@@ -96,7 +96,7 @@ func (propC03) Gen(r *Rng, run uint64, tier string) *Plan {
 	return p
 }
 
-var frameKindsAll = []string{FrameSysProse, FrameSysLine, FrameBadTimestamp, FrameNoSpace, FrameEmptyPayload}
+var frameKindsAll = []string{FrameSysProse, FrameSysLine, FrameBadTimestamp, FrameNoSpace, FrameEmptyPayload, FrameBadDate}
 
 func (propC03) Expand(t *testing.T, p *Plan) []*Plan {
 	sweep := p.Tags["sweep"]
